@@ -151,12 +151,20 @@ func runSeq(sc *Scenario, paths, patterns [][]string, observeEvery bool) (st seq
 			var got []string
 			switch op.Kind {
 			case "del":
-				for _, p := range t.Delete(op.Path) {
+				ret := t.Delete(op.Path)
+				for _, p := range ret {
 					got = append(got, key(p))
 				}
+				if e := appendSafe(ret); e != nil {
+					return st, fmt.Errorf("op %d Delete(%q): %v", i, op.Path, e)
+				}
 			case "delcond":
-				for _, p := range t.DeleteConditional(op.Path, icond) {
+				ret := t.DeleteConditional(op.Path, icond)
+				for _, p := range ret {
 					got = append(got, key(p))
+				}
+				if e := appendSafe(ret); e != nil {
+					return st, fmt.Errorf("op %d DeleteConditional(%q): %v", i, op.Path, e)
 				}
 			case "walkdel":
 				// WalkDeleted reports values only; compare as a multiset of values.
@@ -265,6 +273,24 @@ func runSeq(sc *Scenario, paths, patterns [][]string, observeEvery bool) (st seq
 		}
 	}
 	return st, nil
+}
+
+// appendSafe checks that the path slices a call returned are independent values: appending to one
+// of them (as callers do to build longer paths) leaves every other one as it was.
+func appendSafe(ret [][]string) error {
+	before := make([]string, len(ret))
+	for i, p := range ret {
+		before[i] = key(p)
+	}
+	for i := range ret {
+		_ = append(ret[i], "appended-by-the-caller")
+		for j := range ret {
+			if key(ret[j]) != before[j] {
+				return fmt.Errorf("appending to returned path %d (%q) changed returned path %d from %q to %q: the returned slices share storage", i, unkey(before[i]), j, unkey(before[j]), ret[j])
+			}
+		}
+	}
+	return nil
 }
 
 func pathsOf(keys []string) [][]string {
